@@ -1,2 +1,621 @@
 (* Lemmas behind Props/C17.v. *)
 From TT Require Import Lib.Base Model.Tags Spec.C17 Corr.C17.
+
+(* ====================================================================== *)
+(* A. tag sets                                                            *)
+(* ====================================================================== *)
+Lemma smem_In x s : smem x s = true <-> In x s.
+Proof.
+  unfold smem. rewrite existsb_exists. split.
+  - intros [y [Hy E]]. apply Nat.eqb_eq in E. subst. exact Hy.
+  - intro H. exists x. split; [exact H | apply Nat.eqb_refl].
+Qed.
+
+Lemma smem_union x a b : smem x (sunion a b) = smem x a || smem x b.
+Proof. unfold smem, sunion. apply existsb_app. Qed.
+
+Lemma smem_diff x a b : smem x (sdiff a b) = smem x a && negb (smem x b).
+Proof.
+  unfold sdiff. induction a as [|y a IH]; simpl; [reflexivity|].
+  destruct (negb (smem y b)) eqn:E; simpl.
+  - rewrite IH. destruct (Nat.eqb x y) eqn:Exy; simpl; [|reflexivity].
+    apply Nat.eqb_eq in Exy; subst. rewrite E. reflexivity.
+  - rewrite IH. destruct (Nat.eqb x y) eqn:Exy; simpl; [|reflexivity].
+    apply Nat.eqb_eq in Exy; subst. rewrite E. simpl. destruct (smem y a); reflexivity.
+Qed.
+
+Lemma smem_apply1 x s ch : smem x (apply1 s ch) = (smem x s || smem x (fst ch)) && negb (smem x (snd ch)).
+Proof. unfold apply1. rewrite smem_diff, smem_union. reflexivity. Qed.
+
+Lemma seteq_refl a : seteq a a.
+Proof. intro x; reflexivity. Qed.
+Lemma seteq_sym a b : seteq a b -> seteq b a.
+Proof. intros H x; symmetry; apply H. Qed.
+Lemma seteq_trans a b c : seteq a b -> seteq b c -> seteq a c.
+Proof. intros H1 H2 x; rewrite H1; apply H2. Qed.
+
+Lemma apply1_ext a b ch : seteq a b -> seteq (apply1 a ch) (apply1 b ch).
+Proof. intros H x. rewrite !smem_apply1, H. reflexivity. Qed.
+
+Lemma apply1_no_change a : seteq (apply1 a no_change) a.
+Proof. intro x. rewrite smem_apply1. simpl. destruct (smem x a); reflexivity. Qed.
+
+Definition empty (s : tset) : Prop := forall x, smem x s = false.
+Lemma empty_nil : empty [].
+Proof. intro x; reflexivity. Qed.
+
+Definition disjoint (ch : change) : Prop := forall x, smem x (fst ch) && smem x (snd ch) = false.
+
+Lemma disjointb_spec ch : disjointb ch = true <-> disjoint ch.
+Proof.
+  unfold disjointb, disjoint. rewrite forallb_forall. split.
+  - intros H x. destruct (smem x (fst ch)) eqn:E; [|reflexivity].
+    apply smem_In in E. apply H in E. simpl. destruct (smem x (snd ch)); [discriminate|reflexivity].
+  - intros H x Hx. apply smem_In in Hx. specialize (H x). rewrite Hx in H. simpl in H. rewrite H. reflexivity.
+Qed.
+
+Lemma disjoint_no_change : disjoint no_change.
+Proof. intro x; reflexivity. Qed.
+Lemma disjoint_new_only t : disjoint (t, []).
+Proof. intro x; simpl. apply andb_false_r. Qed.
+Lemma disjoint_gone_only t : disjoint ([], t).
+Proof. intro x; reflexivity. Qed.
+
+(* applying a change after a merged change = applying the merged pair *)
+Lemma merge_step B ex ch : disjoint ch ->
+  seteq (apply1 (apply1 B ex) ch) (apply1 B (merge_tags ex ch)).
+Proof.
+  intros D x. specialize (D x). unfold merge_tags. rewrite !smem_apply1. simpl.
+  rewrite !smem_diff, !smem_union.
+  destruct (smem x B), (smem x (fst ex)), (smem x (snd ex)), (smem x (fst ch)), (smem x (snd ch));
+    simpl in *; congruence.
+Qed.
+
+Lemma merge_disjoint ex ch : disjoint ex -> disjoint ch -> disjoint (merge_tags ex ch).
+Proof.
+  intros D1 D2 x. specialize (D1 x). specialize (D2 x). unfold merge_tags; simpl.
+  rewrite !smem_diff, !smem_union.
+  destruct (smem x (fst ex)), (smem x (snd ex)), (smem x (fst ch)), (smem x (snd ch)); simpl in *; congruence.
+Qed.
+
+Lemma fold_apply1_ext chs : forall a b, seteq a b -> seteq (fold_left apply1 chs a) (fold_left apply1 chs b).
+Proof.
+  induction chs as [|c cs IH]; intros a b H; simpl; [assumption|]. apply IH. apply apply1_ext. assumption.
+Qed.
+
+Lemma merge_fold : forall chs B ex, Forall disjoint chs ->
+  seteq (fold_left apply1 chs (apply1 B ex)) (apply1 B (fold_left merge_tags chs ex)).
+Proof.
+  induction chs as [|ch chs IH]; intros B ex HD; simpl; [apply seteq_refl|].
+  inversion HD as [|? ? Hd Hds]; subst.
+  eapply seteq_trans; [|apply IH; assumption].
+  apply fold_apply1_ext. apply merge_step. assumption.
+Qed.
+
+(* the law behind _merge_tags: a sequence of disjoint changes = the one merged change *)
+Theorem merge_law : forall B chs, Forall disjoint chs ->
+  seteq (fold_left apply1 chs B) (apply1 B (fold_left merge_tags chs no_change)).
+Proof.
+  intros B chs H. eapply seteq_trans; [|apply merge_fold; assumption].
+  apply fold_apply1_ext. apply seteq_sym. apply apply1_no_change.
+Qed.
+
+(* ... and it is false without disjointness *)
+Lemma merge_needs_disjoint : exists B ex ch,
+  ~ seteq (apply1 (apply1 B ex) ch) (apply1 B (merge_tags ex ch)).
+Proof. exists [1], ([],[]), ([1],[1]). intros H. specialize (H 1). vm_compute in H. discriminate. Qed.
+
+Lemma seteqb_spec a b : seteqb a b = true <-> seteq a b.
+Proof.
+  unfold seteqb, seteq. rewrite forallb_forall. split.
+  - intros H x. destruct (in_dec Nat.eq_dec x (a ++ b)) as [Hin|Hn].
+    + apply H in Hin. apply (proj1 (bool_eqb_spec _ _)) in Hin. exact Hin.
+    + assert (smem x a = false).
+      { destruct (smem x a) eqn:E; [|reflexivity]. apply smem_In in E. exfalso; apply Hn, in_or_app; auto. }
+      assert (smem x b = false).
+      { destruct (smem x b) eqn:E; [|reflexivity]. apply smem_In in E. exfalso; apply Hn, in_or_app; auto. }
+      congruence.
+  - intros H x _. apply (proj2 (bool_eqb_spec _ _)). apply H.
+Qed.
+
+(* ---------- list helpers ---------- *)
+Lemma list_eqb_Forall2 {A} (eqb : A -> A -> bool) (R : A -> A -> Prop) :
+  (forall a b, eqb a b = true <-> R a b) ->
+  forall l m, list_eqb eqb l m = true <-> Forall2 R l m.
+Proof.
+  intros H l; induction l as [|x r IH]; intros [|y s]; simpl; split; intro E;
+    try constructor; try discriminate; try (inversion E; fail).
+  - apply andb_true_iff in E as [E1 E2]. apply H; exact E1.
+  - apply andb_true_iff in E as [E1 E2]. apply IH; exact E2.
+  - inversion E; subst. apply andb_true_iff; split; [apply H | apply IH]; assumption.
+Qed.
+
+Lemma lseteqb_spec l m : lseteqb l m = true <-> Forall2 seteq l m.
+Proof. apply list_eqb_Forall2. exact seteqb_spec. Qed.
+
+Lemma forall2b_Forall2 {A B} (p : A -> B -> bool) (P : A -> B -> Prop) :
+  (forall a b, p a b = true <-> P a b) ->
+  forall l m, forall2b p l m = true <-> Forall2 P l m.
+Proof.
+  intros H l; induction l as [|x r IH]; intros [|y s]; simpl; split; intro E;
+    try constructor; try discriminate; try (inversion E; fail).
+  - apply andb_true_iff in E as [E1 E2]. apply H; exact E1.
+  - apply andb_true_iff in E as [E1 E2]. apply IH; exact E2.
+  - inversion E; subst. apply andb_true_iff; split; [apply H | apply IH]; assumption.
+Qed.
+
+Lemma F2_seteq_refl l : Forall2 seteq l l.
+Proof. induction l; constructor; [apply seteq_refl|assumption]. Qed.
+Lemma F2_seteq_sym l m : Forall2 seteq l m -> Forall2 seteq m l.
+Proof. induction 1; constructor; [apply seteq_sym|]; assumption. Qed.
+Lemma F2_seteq_trans l m n : Forall2 seteq l m -> Forall2 seteq m n -> Forall2 seteq l n.
+Proof.
+  intros H; revert n; induction H; intros n H2; inversion H2; subst; constructor;
+    [eapply seteq_trans; eassumption | apply IHForall2; assumption].
+Qed.
+
+Lemma Forall2_map_same {A B} (R : B -> B -> Prop) (f g : A -> B) ks :
+  (forall k, In k ks -> R (f k) (g k)) -> Forall2 R (map f ks) (map g ks).
+Proof.
+  induction ks as [|k ks IH]; intro H; simpl; constructor.
+  - apply H; left; reflexivity.
+  - apply IH. intros k' Hk. apply H; right; exact Hk.
+Qed.
+
+Lemma Forall2_impl {A B} (P Q : A -> B -> Prop) l m :
+  (forall a b, P a b -> Q a b) -> Forall2 P l m -> Forall2 Q l m.
+Proof. intros H; induction 1; constructor; auto. Qed.
+
+Lemma Forall2_map_l {A A' B} (P : A -> B -> Prop) (Q : A' -> B -> Prop) (f : A -> A') l m :
+  (forall a b, P a b -> Q (f a) b) -> Forall2 P l m -> Forall2 Q (map f l) m.
+Proof. intros H; induction 1; simpl; constructor; auto. Qed.
+
+(* ====================================================================== *)
+(* B. current_tags refines the two-level specification                    *)
+(* ====================================================================== *)
+Definition in_test (s : sp) : bool := match test_tags s with Some _ => true | None => false end.
+
+(* the TagContext stack against the specification state *)
+Definition R (c : tagctx) (s : sp) : Prop :=
+  match test_tags s with
+  | None => parents c = [] /\ seteq (top c) (run_tags s)
+  | Some t => exists p, parents c = [p] /\ seteq p (run_tags s) /\ seteq (top c) t
+  end.
+
+Lemma R_init : R ctx_root sp0.
+Proof. split; [reflexivity | apply seteq_refl]. Qed.
+
+Lemma R_current c s : R c s -> seteq (ctx_current c) (current s).
+Proof.
+  unfold R, current, ctx_current. destruct (test_tags s).
+  - intros [p [_ [_ H]]]; exact H.
+  - intros [_ H]; exact H.
+Qed.
+
+(* one call keeps the relation, as long as tests do not nest *)
+Lemma R_step c s op :
+  R c s -> (op = StartTest -> in_test s = false) -> R (istep c op) (sstep [] s op).
+Proof.
+  intros HR Hn. destruct op as [|ch| | |]; simpl.
+  - apply R_init.
+  - unfold R in *. destruct (test_tags s) as [t|] eqn:Et; simpl.
+    + destruct HR as [p [Hp [Hr Ht]]]. exists p. repeat split; try assumption. apply apply1_ext; exact Ht.
+    + destruct HR as [Hp Hr]. split; [assumption|]. apply apply1_ext; exact Hr.
+  - specialize (Hn eq_refl). unfold in_test in Hn. unfold R in *.
+    destruct (test_tags s) eqn:Et; [discriminate|]. destruct HR as [Hp Hr]. simpl.
+    exists (top c). rewrite Hp. repeat split; assumption.
+  - exact HR.
+  - unfold R in *. destruct (test_tags s) as [t|] eqn:Et; simpl.
+    + destruct HR as [p [Hp [Hr Ht]]]. unfold ctx_pop. rewrite Hp. simpl. split; [reflexivity|exact Hr].
+    + destruct HR as [Hp Hr]. unfold ctx_pop. rewrite Hp. split; assumption.
+Qed.
+
+Lemma in_test_sstep tg s op : in_test (sstep tg s op) =
+  match op with StartRun | StopTest => false | StartTest => true | _ => in_test s end.
+Proof. destruct op; unfold in_test; simpl; try reflexivity. destruct (test_tags s); reflexivity. Qed.
+
+Lemma nn_step s op r : nn_from (in_test s) (op :: r) = true ->
+  (op = StartTest -> in_test s = false) /\ nn_from (in_test (sstep [] s op)) r = true.
+Proof.
+  rewrite in_test_sstep. destruct op; simpl; intro H; try (split; [discriminate|exact H]).
+  apply andb_true_iff in H as [H1 H2]. split; [|exact H2]. intros _. destruct (in_test s); [discriminate|reflexivity].
+Qed.
+
+Lemma R_fold h : forall c s, R c s -> nn_from (in_test s) h = true ->
+  R (fold_left istep h c) (fold_left (sstep []) h s).
+Proof.
+  induction h as [|op r IH]; intros c s HR Hn; simpl; [exact HR|].
+  apply nn_step in Hn as [H1 H2]. apply IH; [apply R_step; assumption|exact H2].
+Qed.
+
+(* a Tagger that is part of the reporter: its change is one more in-test change *)
+Lemma sstep_tagger tg ch h : forall s,
+  fold_left (sstep tg) (tagger_tr ch h) s = fold_left (sstep (tg ++ [ch])) h s.
+Proof.
+  unfold tagger_tr. induction h as [|op r IH]; intro s; simpl; [reflexivity|].
+  destruct op; simpl; rewrite IH; try reflexivity.
+  rewrite fold_left_app. reflexivity.
+Qed.
+
+Lemma nn_tagger ch h : forall b, nn_from b (tagger_tr ch h) = nn_from b h.
+Proof.
+  unfold tagger_tr. induction h as [|op r IH]; intro b; simpl; [reflexivity|].
+  destruct op; simpl; rewrite ?IH; reflexivity.
+Qed.
+
+Lemma reporter_refines a : forall h, nn_from false h = true ->
+  seteq (reporter_tags a h) (current (fold_left (sstep (chain a)) h sp0)).
+Proof.
+  assert (own : forall h, nn_from false h = true ->
+            seteq (ctx_current (fold_left istep h ctx_root)) (current (fold_left (sstep []) h sp0))).
+  { intros h Hn. apply R_current. apply R_fold; [apply R_init|exact Hn]. }
+  induction a as [o|l|x IH|ch x IH|x IH|x IH|x IH]; intros h Hn; simpl; try (apply own; exact Hn);
+    try (apply IH; exact Hn).
+  rewrite <- sstep_tagger. apply IH. rewrite nn_tagger. exact Hn.
+Qed.
+
+Lemma nn_firstn h : forall b k, nn_from b h = true -> nn_from b (firstn k h) = true.
+Proof.
+  induction h as [|op r IH]; intros b k H; destruct k; simpl; try reflexivity.
+  destruct op; simpl in *; try (apply IH; exact H).
+  apply andb_true_iff in H as [H1 H2]. rewrite H1. simpl. apply IH; exact H2.
+Qed.
+
+(* C17_current *)
+Theorem current_refines a h : nn_from false h = true ->
+  Forall2 seteq (reporter_scan a h) (spec_scan (chain a) h).
+Proof.
+  intro Hn. unfold reporter_scan, spec_scan. apply Forall2_map_same. intros k _.
+  unfold spec_after. apply reporter_refines. apply nn_firstn. exact Hn.
+Qed.
+
+(* ====================================================================== *)
+(* C. what wrapped results observe                                        *)
+(* ====================================================================== *)
+(* the specification's current tags at each outcome of a stream *)
+Fixpoint sobs_from (tg : list change) (s : sp) (h : list call) : list tset :=
+  match h with
+  | [] => []
+  | op :: r => let s' := sstep tg s op in
+               match op with Outcome => current s' :: sobs_from tg s' r | _ => sobs_from tg s' r end
+  end.
+
+(* a result with its own TagContext sees what the specification says *)
+Lemma leaf_refines h : forall c s, R c s -> nn_from (in_test s) h = true ->
+  Forall2 seteq (seen_from c h) (sobs_from [] s h).
+Proof.
+  induction h as [|op r IH]; intros c s HR Hn; simpl; [constructor|].
+  apply nn_step in Hn as [H1 H2].
+  assert (HR' : R (istep c op) (sstep [] s op)) by (apply R_step; assumption).
+  destruct op; try (apply IH; assumption).
+  constructor; [apply R_current; exact HR' | apply IH; assumption].
+Qed.
+
+Lemma wf_nn h : forall it seen, wf_from it seen h = true -> nn_from it h = true.
+Proof.
+  induction h as [|op r IH]; intros it seen H; simpl in *; [reflexivity|].
+  destruct op; simpl in *; repeat (apply andb_true_iff in H as [? H]); eauto.
+  - rewrite H0. simpl. eauto.
+Qed.
+
+(* ---------- ThreadsafeForwardingResult ---------- *)
+Record tfr_inv (it seen : bool) (t : tfr) (si so : sp) : Prop := {
+  ti_in : t_in t = it;
+  ti_si : in_test si = it;
+  ti_dg : disjoint (t_glob t);
+  ti_dt : disjoint (t_test t);
+  ti_run : seteq (run_tags si) (apply1 [] (t_glob t));
+  ti_out : it = false -> t_test t = no_change;
+  ti_test : forall tt, test_tags si = Some tt -> seen = false ->
+            seteq tt (apply1 (apply1 [] (t_glob t)) (t_test t));
+  ti_so_t : test_tags so = None;
+  ti_so_r : empty (run_tags so)
+}.
+
+Lemma any_tags_false c : any_tags c = false -> c = no_change.
+Proof. destruct c as [[|? ?] [|? ?]]; simpl; intro H; try discriminate; reflexivity. Qed.
+
+(* the optional result.tags of a buffer, inside an open test of the target *)
+Definition opt_tags (ch : change) : list call := if any_tags ch then [Tags ch] else [].
+
+Lemma opt_tags_spec ch run t : disjoint ch ->
+  exists t', seteq t' (apply1 t ch) /\
+    (forall rest, sobs_from [] {| run_tags := run; test_tags := Some t |} (opt_tags ch ++ rest)
+                  = sobs_from [] {| run_tags := run; test_tags := Some t' |} rest) /\
+    (forall seen rest, wf_from true seen (opt_tags ch ++ rest) = wf_from true seen rest).
+Proof.
+  intro D. unfold opt_tags. destruct (any_tags ch) eqn:E.
+  - exists (apply1 t ch). split; [apply seteq_refl|]. split; intros; simpl; [reflexivity|].
+    apply disjointb_spec in D. rewrite D. reflexivity.
+  - apply any_tags_false in E. subst. exists t. split; [apply seteq_sym, apply1_no_change|].
+    split; intros; reflexivity.
+Qed.
+
+Lemma sobs_from_ext_test h : forall run t t', seteq t t' -> nn_from true h = true ->
+  Forall2 seteq (sobs_from [] {| run_tags := run; test_tags := Some t |} h)
+                (sobs_from [] {| run_tags := run; test_tags := Some t' |} h).
+Proof.
+  induction h as [|op r IH]; intros run t t' H Hn; simpl; [constructor|].
+  destruct op; simpl in *; try discriminate.
+  - apply F2_seteq_refl.
+  - apply IH; [apply apply1_ext; exact H|exact Hn].
+  - constructor; [exact H|]. apply IH; assumption.
+  - apply F2_seteq_refl.
+Qed.
+
+Ltac tfr_side :=
+  simpl; try solve [ assumption | reflexivity | apply disjoint_no_change | apply empty_nil
+                   | apply merge_disjoint; assumption | intros; discriminate | intros; congruence ].
+
+Lemma tfr_ok h : forall it seen t si so, tfr_inv it seen t si so -> wf_from it seen h = true ->
+  Forall2 seteq (sobs_from [] so (trans tfr_step t h)) (sobs_from [] si h)
+  /\ wf_from false false (trans tfr_step t h) = true.
+Proof.
+  induction h as [|op r IH]; intros it seen t si so I Hw; [split; [constructor|reflexivity]|].
+  destruct I as [Iin Isi Idg Idt Irun Iout Itest Isot Isor].
+  destruct op as [|ch| | |]; simpl in Hw.
+  - (* startTestRun, outside a test *)
+    apply andb_true_iff in Hw as [Hit Hw]. destruct it; [discriminate|]. simpl.
+    apply (IH false false); [|exact Hw].
+    constructor; tfr_side.
+  - (* tags: buffered *)
+    apply andb_true_iff in Hw as [Hd Hw]. apply disjointb_spec in Hd. simpl.
+    unfold in_test in Isi.
+    destruct it.
+    + rewrite Iin. destruct (test_tags si) as [tt|] eqn:Et; [|discriminate]. simpl.
+      assert (H1 : seen = false -> seteq (apply1 tt ch)
+                     (apply1 (apply1 [] (t_glob t)) (merge_tags (t_test t) ch))).
+      { intro Hs. eapply seteq_trans; [apply apply1_ext; apply Itest; [reflexivity|exact Hs]|].
+        apply merge_step. exact Hd. }
+      apply (IH true seen); [|exact Hw].
+      constructor; tfr_side.
+      intros tt' Htt Hs. injection Htt as <-. apply H1. exact Hs.
+    + rewrite Iin. destruct (test_tags si) as [tt|] eqn:Et; [discriminate|]. simpl.
+      assert (H1 : seteq (apply1 (run_tags si) ch) (apply1 [] (merge_tags (t_glob t) ch))).
+      { eapply seteq_trans; [apply apply1_ext; exact Irun|]. apply merge_step. exact Hd. }
+      apply (IH false seen); [|exact Hw].
+      constructor; tfr_side.
+  - (* startTest *)
+    apply andb_true_iff in Hw as [Hit Hw]. destruct it; [discriminate|]. simpl.
+    assert (H1 : seteq (run_tags si) (apply1 (apply1 [] (t_glob t)) (t_test t))).
+    { rewrite (Iout eq_refl). eapply seteq_trans; [exact Irun|]. apply seteq_sym, apply1_no_change. }
+    apply (IH true false); [|exact Hw].
+    constructor; tfr_side.
+  - (* outcome: startTest, tags(global), tags(test), outcome, stopTest on the target *)
+    apply andb_true_iff in Hw as [Hs Hw].
+    cbn [trans tfr_step]. fold (opt_tags (t_glob t)). fold (opt_tags (t_test t)).
+    rewrite <- !app_assoc. cbn [app]. cbn [sobs_from sstep wf_from negb andb fold_left].
+    destruct so as [sor sot]. simpl in Isot, Isor. subst sot. cbn [run_tags test_tags].
+    destruct (opt_tags_spec (t_glob t) sor sor Idg) as [t1 [E1 [O1 W1]]].
+    rewrite O1, W1.
+    destruct (opt_tags_spec (t_test t) sor t1 Idt) as [t2 [E2 [O2 W2]]].
+    rewrite O2, W2. cbn [sobs_from sstep wf_from negb andb current test_tags run_tags].
+    assert (Ht2 : seteq t2 (apply1 (apply1 [] (t_glob t)) (t_test t))).
+    { eapply seteq_trans; [exact E2|]. apply apply1_ext. eapply seteq_trans; [exact E1|].
+      apply apply1_ext. intro x. rewrite Isor. reflexivity. }
+    assert (Hcur : seteq t2 (current si)).
+    { unfold current. unfold in_test in Isi. destruct (test_tags si) as [tt|] eqn:Et.
+      - destruct it; [|discriminate]. destruct seen; [discriminate|].
+        apply seteq_sym. eapply seteq_trans; [apply Itest; reflexivity|]. apply seteq_sym. exact Ht2.
+      - destruct it; [discriminate|]. rewrite (Iout eq_refl) in Ht2.
+        eapply seteq_trans; [exact Ht2|]. eapply seteq_trans; [apply apply1_no_change|].
+        apply seteq_sym. exact Irun. }
+    destruct (IH it it {| t_glob := t_glob t; t_test := no_change; t_in := t_in t |} si
+                 {| run_tags := sor; test_tags := None |}) as [IH1 IH2]; [|exact Hw|].
+    + constructor; tfr_side.
+      intros tt Htt Hseen. rewrite Hseen in Isi. unfold in_test in Isi. rewrite Htt in Isi. discriminate.
+    + split; [|exact IH2]. constructor; [exact Hcur|exact IH1].
+  - (* stopTest *)
+    simpl. apply (IH false false); [|exact Hw].
+    constructor; tfr_side.
+Qed.
+
+Lemma tfr_inv_init : tfr_inv false false tfr0 sp0 sp0.
+Proof. constructor; tfr_side. Qed.
+
+(* ---------- ExtendedToStreamDecorator -> StreamToExtendedDecorator -> PlaceHolder.run ---------- *)
+(* PlaceHolder.run with tags t on a result whose run-level tags are r: the outcome is seen under
+   r + t and the run-level tags are r - t afterwards *)
+Lemma placeholder_block t run rest :
+  sobs_from [] {| run_tags := run; test_tags := None |}
+            ([Tags (t, []); StartTest; Outcome; StopTest; Tags ([], t)] ++ rest)
+  = apply1 run (t, [])
+    :: sobs_from [] {| run_tags := apply1 (apply1 run (t, [])) ([], t); test_tags := None |} rest.
+Proof. reflexivity. Qed.
+
+Lemma disjointb_new_only t : disjointb (t, []) = true.
+Proof. apply disjointb_spec, disjoint_new_only. Qed.
+
+Lemma e2s_ok h : forall it seen c si so,
+  R c si -> in_test si = it -> test_tags so = None -> empty (run_tags so) ->
+  wf_from it seen h = true ->
+  Forall2 seteq (sobs_from [] so (trans e2s_step c h)) (sobs_from [] si h)
+  /\ wf_from false false (trans e2s_step c h) = true.
+Proof.
+  induction h as [|op r IH]; intros it seen c si so HR Hit Hso He Hw; [split; [constructor|reflexivity]|].
+  assert (Hn : nn_from (in_test si) (op :: r) = true) by (rewrite Hit; eapply wf_nn; exact Hw).
+  apply nn_step in Hn as [Hn1 _].
+  assert (HR' : R (istep c op) (sstep [] si op)) by (apply R_step; assumption).
+  destruct so as [sor sot]. simpl in Hso, He. subst sot.
+  destruct op as [|ch| | |]; simpl in Hw.
+  - apply andb_true_iff in Hw as [_ Hw]. simpl.
+    apply (IH false false); try assumption; try reflexivity. apply empty_nil.
+  - apply andb_true_iff in Hw as [_ Hw]. cbn [trans e2s_step app].
+    apply (IH it seen); try assumption; try reflexivity. rewrite in_test_sstep. exact Hit.
+  - apply andb_true_iff in Hw as [_ Hw]. cbn [trans e2s_step app].
+    apply (IH true false); try assumption; reflexivity.
+  - apply andb_true_iff in Hw as [_ Hw]. cbn [trans e2s_step]. rewrite placeholder_block.
+    cbn [app wf_from negb andb]. rewrite disjointb_new_only. cbn [andb disjointb fst snd forallb].
+    destruct (IH it it (istep c Outcome) (sstep [] si Outcome)
+                 {| run_tags := apply1 (apply1 sor (ctx_current c, [])) ([], ctx_current c); test_tags := None |})
+      as [IH1 IH2]; try assumption; try reflexivity.
+    + intro x. cbn [run_tags]. rewrite !smem_apply1. simpl. rewrite He. simpl.
+      destruct (smem x (ctx_current c)); reflexivity.
+    + split; [|exact IH2]. cbn [sobs_from sstep]. constructor; [|exact IH1].
+      eapply seteq_trans; [|apply R_current; exact HR].
+      intro x. rewrite smem_apply1. simpl. rewrite He. simpl. apply andb_true_r.
+  - cbn [trans e2s_step app]. apply (IH false false); try assumption; reflexivity.
+Qed.
+
+(* ---------- Tagger ---------- *)
+Lemma sobs_tagger tg ch h : forall s,
+  sobs_from tg s (tagger_tr ch h) = sobs_from (tg ++ [ch]) s h.
+Proof.
+  unfold tagger_tr. induction h as [|op r IH]; intro s; simpl; [reflexivity|].
+  destruct op; simpl; rewrite ?IH; try reflexivity.
+  rewrite fold_left_app. reflexivity.
+Qed.
+
+Lemma wf_tagger ch h : disjointb ch = true ->
+  forall it seen, wf_from it seen (tagger_tr ch h) = wf_from it seen h.
+Proof.
+  intro D. unfold tagger_tr. induction h as [|op r IH]; intros it seen; simpl; [reflexivity|].
+  destruct op; simpl; rewrite ?IH, ?D; reflexivity.
+Qed.
+
+(* ---------- induction over adapter trees ---------- *)
+Section adapter_ind'.
+  Variable P : adapter -> Prop.
+  Hypothesis HL : forall o, P (Leaf o).
+  Hypothesis HM : forall l, Forall P l -> P (Multi l).
+  Hypothesis HD : forall a, P a -> P (Deco a).
+  Hypothesis HG : forall ch a, P a -> P (Tagger ch a).
+  Hypothesis HO : forall a, P a -> P (E2O a).
+  Hypothesis HF : forall a, P a -> P (TFR a).
+  Hypothesis HS : forall a, P a -> P (E2S a).
+  Fixpoint adapter_ind' (a : adapter) : P a :=
+    let fix go (l : list adapter) : Forall P l :=
+      match l with [] => Forall_nil _ | x :: r => Forall_cons x (adapter_ind' x) (go r) end in
+    match a with
+    | Leaf o => HL o
+    | Multi l => HM l (go l)
+    | Deco x => HD x (adapter_ind' x)
+    | Tagger ch x => HG ch x (adapter_ind' x)
+    | E2O x => HO x (adapter_ind' x)
+    | TFR x => HF x (adapter_ind' x)
+    | E2S x => HS x (adapter_ind' x)
+    end.
+End adapter_ind'.
+
+(* what a leaf must see, as long as no Tagger sits between a forwarder and the leaf *)
+Definition leaf_ok (h : list call) (clean : bool) (l : list tset) : Prop :=
+  wf_from false false h = true -> clean = true -> Forall2 seteq l (sobs_from [] sp0 h).
+
+Lemma own_seen_ok h : leaf_ok h true (seen_from ctx_root h).
+Proof.
+  intros Hw _. apply leaf_refines; [apply R_init|]. simpl. eapply wf_nn; exact Hw.
+Qed.
+
+Lemma inner_ok a : forall h, Forall2 (leaf_ok h) (clean_inner a) (leaves_obs a h).
+Proof.
+  induction a as [o|l IH|x IH|ch x IH|x IH|x IH|x IH] using adapter_ind'; intro h; simpl.
+  - constructor; [apply own_seen_ok|constructor].
+  - induction IH as [|x r Hx _ IHr]; simpl; [constructor|]. apply Forall2_app; [apply Hx|exact IHr].
+  - apply IH.
+  - eapply Forall2_map_l; [|apply IH]. intros a b _ _ Hf. discriminate.
+  - apply IH.
+  - eapply Forall2_impl; [|apply (IH (trans tfr_step tfr0 h))].
+    intros clean l Hl Hw Hc.
+    destruct (tfr_ok h false false tfr0 sp0 sp0 tfr_inv_init Hw) as [H1 H2].
+    eapply F2_seteq_trans; [apply Hl; assumption|exact H1].
+  - constructor; [apply own_seen_ok|].
+    eapply Forall2_impl; [|apply (IH (trans e2s_step ctx_root h))].
+    intros clean l Hl Hw Hc.
+    destruct (e2s_ok h false false ctx_root sp0 sp0 R_init eq_refl eq_refl empty_nil Hw) as [H1 H2].
+    eapply F2_seteq_trans; [apply Hl; assumption|exact H1].
+Qed.
+
+(* with the Taggers that are part of the reporter *)
+Lemma top_ok a : forall h, forallb disjointb (chain a) = true ->
+  Forall2 (fun clean l => wf_from false false h = true -> clean = true ->
+                          Forall2 seteq l (sobs_from (chain a) sp0 h))
+          (clean_leaves a) (leaves_obs a h).
+Proof.
+  induction a as [o|l|x IH|ch x IH|x IH|x IH|x IH]; intros h Hd;
+    try (exact (inner_ok _ h)); try (apply IH; exact Hd).
+  simpl in Hd. rewrite forallb_app in Hd. apply andb_true_iff in Hd as [Hd1 Hd2].
+  simpl in Hd2. rewrite andb_true_r in Hd2. simpl.
+  eapply Forall2_impl; [|apply (IH (tagger_tr ch h) Hd1)].
+  intros clean l Hl Hw Hc. rewrite <- sobs_tagger. apply Hl; [|exact Hc].
+  rewrite wf_tagger; assumption.
+Qed.
+
+(* ---------- the reporter's tags at the outcomes ---------- *)
+Fixpoint scan_from (tg : list change) (s : sp) (h : list call) : list tset :=
+  match h with
+  | [] => []
+  | op :: r => current (sstep tg s op) :: scan_from tg (sstep tg s op) r
+  end.
+
+Lemma scan_prefix tg h : forall s,
+  map (fun k => current (fold_left (sstep tg) (firstn k h) s)) (seq 1 (length h)) = scan_from tg s h.
+Proof.
+  induction h as [|op r IH]; intro s; [reflexivity|].
+  cbn [length seq map scan_from]. f_equal.
+  rewrite <- seq_shift, map_map. apply IH.
+Qed.
+
+Lemma spec_scan_eq tg h : spec_scan tg h = scan_from tg sp0 h.
+Proof. unfold spec_scan, spec_after. apply scan_prefix. Qed.
+
+Lemma at_outcomes_scan tg h : forall s, at_outcomes h (scan_from tg s h) = sobs_from tg s h.
+Proof.
+  induction h as [|op r IH]; intro s; [reflexivity|].
+  destruct op; simpl; rewrite IH; reflexivity.
+Qed.
+
+Lemma at_outcomes_F2 {A} (Rr : A -> A -> Prop) h : forall l m,
+  Forall2 Rr l m -> Forall2 Rr (at_outcomes h l) (at_outcomes h m).
+Proof.
+  induction h as [|op r IH]; intros l m H; [destruct l, m; constructor|].
+  inversion H; subst; [destruct op; constructor|].
+  destruct op; simpl; try (apply IH; assumption). constructor; [assumption|apply IH; assumption].
+Qed.
+
+(* C17_observed *)
+Theorem observed_ok a h :
+  wf_from false false h = true -> forallb disjointb (chain a) = true ->
+  Forall2 (fun clean l => clean = true -> Forall2 seteq l (at_outcomes h (reporter_scan a h)))
+          (clean_leaves a) (leaves_obs a h).
+Proof.
+  intros Hw Hd. eapply Forall2_impl; [|apply (top_ok a h Hd)].
+  intros clean l Hl Hc. simpl in Hl.
+  eapply F2_seteq_trans; [apply Hl; assumption|].
+  rewrite <- at_outcomes_scan, <- spec_scan_eq.
+  apply at_outcomes_F2. apply F2_seteq_sym. apply current_refines. eapply wf_nn; exact Hw.
+Qed.
+
+(* ====================================================================== *)
+(* D. the statement                                                       *)
+(* ====================================================================== *)
+Theorem model_meets_spec : forall i, spec_okb i (model i) = true.
+Proof.
+  intros [a h]. unfold spec_okb, current_okb, observed_okb, wf_obs, model; simpl.
+  apply andb_true_iff; split.
+  - destruct (nn_from false h) eqn:En; [|reflexivity]. simpl.
+    apply lseteqb_spec. apply current_refines. exact En.
+  - destruct (wf_from false false h && forallb disjointb (chain a)) eqn:Ew; [|reflexivity]. simpl.
+    apply andb_true_iff in Ew as [Hw Hd].
+    apply (forall2b_Forall2 _ (fun clean l => clean = true ->
+             Forall2 seteq l (at_outcomes h (reporter_scan a h)))).
+    + intros c l. destruct c; simpl.
+      * rewrite lseteqb_spec. split; auto.
+      * split; [discriminate|reflexivity].
+    + apply observed_ok; assumption.
+Qed.
+
+Theorem spec_okb_sound : forall i o, spec_okb i o = true -> Spec i o.
+Proof.
+  intros i o H. unfold spec_okb in H. apply andb_true_iff in H as [H1 H2]. split.
+  - intro Hn. unfold current_okb in H1. rewrite Hn in H1. simpl in H1. apply lseteqb_spec. exact H1.
+  - intro Hw. unfold observed_okb in H2. rewrite Hw in H2. simpl in H2.
+    revert H2. apply forall2b_Forall2. intros c l. destruct c; simpl.
+    + rewrite lseteqb_spec. split; auto.
+    + split; [discriminate|reflexivity].
+Qed.
+
+Theorem obs_eqb_spec : forall a b, obs_eqb a b = true <-> obs_equiv a b.
+Proof.
+  intros a b. unfold obs_eqb, obs_equiv. rewrite andb_true_iff, lseteqb_spec.
+  rewrite (list_eqb_Forall2 lseteqb (Forall2 seteq) lseteqb_spec). reflexivity.
+Qed.
